@@ -226,6 +226,22 @@ def run(ctx):
         dc = build_chain(spec, rng, with_meta=False)
         cd = share(dc.to_dict(), {})
         one(cd, "shared-objects", {})
+    # hand-made dictionaries in which a name recurs along one path (B0 -> anti-B0 -> B0 -> K+ pi-; Upsilon -> pi+ pi- Upsilon,
+    # the lower one decaying to e+ e-): every decay line of the dictionary is drawn, whatever the particles are called
+    mix = {"B0": [{"bf": 0.2, "fs": [{"anti-B0": [{"bf": 0.5, "fs": [{"B0": [{"bf": 1e-5, "fs": ["K+", "pi-"], "model": "PHSP", "model_params": ""}]}],
+                                                  "model": "", "model_params": ""}]}], "model": "", "model_params": ""},
+                  {"bf": 0.8, "fs": [{"B0": [{"bf": 1.0, "fs": ["K+", "pi-"], "model": "", "model_params": ""}]}, "gamma"], "model": "", "model_params": ""}]}
+    one(mix, "name-recurs-on-a-path", {})
+    for k in range(15 if tier == "quick" else 150):
+        spec = gen.rand_tree_spec(rng, rng.choice([2, 3, 4, 5]), max_mult=2)
+        cd = build_chain(spec, rng, with_meta=False).to_dict()
+
+        def recur(cd, path=()):
+            (mother, modes), = cd.items()
+            nm = rng.choice(path) if path and rng.random() < 0.5 else mother
+            return {nm: [dict(m, fs=[it if isinstance(it, str) else recur(it, path + (nm,)) for it in m["fs"]]) for m in modes]}
+
+        one(recur(cd), "name-recurs-on-a-path", {})
     # fixed finding F17: names with HTML markup characters (only possible in hand-made chain dictionaries; always piped
     # through dot), alone, among table names, as mother, in nested lines, and as pure entity look-alikes
     special = ["a<b", "x&y", "p>q", "&amp;", "<SUB>", "a&b;c", "<<>>", "K&lt;", "&", "<", "q\"r", "it's", "&#773;"]
